@@ -405,7 +405,13 @@ class Sym:
 
     def ev_Unary(self, n, st):
         if n["op"] == "Not" and n.get("ty") == "bool":
-            return self.bool_value(n, st)
+            def neg(v):
+                if v == TRUE:
+                    return FALSE
+                if v == FALSE:
+                    return TRUE
+                return v[1] if v[0] == "not" else ("not", v)
+            return self._unary(n, st, neg)
         return self._unary(n, st, lambda v: ("neg", v) if n["op"] == "Neg" else ("bitnot", v))
 
     def ev_Logical(self, n, st):
